@@ -17,6 +17,9 @@ fn poisons(rng: &mut Rng) -> Vec<Vec<u8>> {
     v.push([vec![0x51, 0x20], vec![9u8; 31]].concat());                                                   // v1 lookalike, one byte short
     v.push((0..3000).flat_map(|i| vec![0x01, i as u8]).collect());                                        // thousands of pushes
     v.push(rng.bytes(520)); v.push(rng.bytes(10_001)); v.push(vec![0xEE; 70_000]);                        // (a length beyond u16: 5-byte CompactSize)
+    let mut straddle = vec![0x6a, 0x4e, 0x02, 0x00, 0x01, 0x00]; straddle.extend(vec![0x61u8; 65_535]); straddle.extend_from_slice(&[0xc3, 0xa9, 0x62]); v.push(straddle);   // OP_RETURN text > 64 KiB, a 2-byte character across byte 65536
+    let mut bad = vec![0x6a, 0x4d, 0x30, 0x75]; bad.extend(vec![0xffu8; 30_000]); v.push(bad);                                       // 30000 invalid bytes (90000 bytes once decoded lossily)
+    v.push(vec![0x4e, 0xff, 0xff, 0xff, 0xff, 1, 2, 3]); v.push(vec![0x76, 0xa9, 0x4e, 0xf9, 0xff, 0xff, 0xff, 0x88, 0xac]);          // PUSHDATA4: offset + length reaches 2^32
     if thorough { v.push(rng.bytes(100_000)); for _ in 0..60 { let n = rng.below(90) as usize; v.push(rng.bytes(n)); } }
     for op in [0x00u8, 0x4f, 0x50, 0x62, 0x65, 0x6a, 0x7e, 0x89, 0xb1, 0xba, 0xfe] { let n = rng.below(20) as usize; let mut s = vec![op]; s.extend(rng.bytes(n)); v.push(s); }
     v
